@@ -501,6 +501,11 @@ def _r5(ctx, pkg):
             a = simp(up[0].value) if up[0].value else None
             ok = simp(l1.iter) == ("param", "complist") and a in (g, ("meth", g, "items", (), ()))
             st = up
+    if not ok and not st:
+        # the merge as ONE expression: dict / OrderedDict over the chained items of every component's mapping, or a dict
+        # comprehension with the two loops as its generators
+        rets = [simp(f.value) for f in fl.facts if f.kind == "return" and f.value is not None]
+        ok = len(rets) == 1 and _merged_expression(rets[0])
     brk = [f for f in fl.facts if f.kind in ("break", "continue")]
     ctx.check(ok and not brk, "R5", "_collect_variable_items:every component", (UTIL, fn.lineno),
               "every item of every component's params/deriveds/constants is merged (keyed by symbol), unconditionally",
@@ -528,6 +533,39 @@ def _r5(ctx, pkg):
                     good = len(pairs) >= 1 and len(kind_tests) >= 1 and len(tests) == len(kind_tests) and src
         ctx.check(good, "R5", f"Component.{prop}", ("naunet/component.py", f.lineno if f else 0),
                   f"Component.{prop} maps symbol -> value for the symbols of kind `{kind}`")
+
+
+def _merged_expression(v) -> bool:
+    """is `v` (the items of) a dictionary that merges, in order and unfiltered, `getattr(comp, var_type)` of EVERY comp in
+    `complist`?   dict(chain.from_iterable(getattr(c, var_type).items() for c in complist)),  chain(*[..]),
+    {k: x for c in complist for k, x in getattr(c, var_type).items()}  -- with or without the final .items()"""
+    COMPS, VT = ("param", "complist"), ("param", "var_type")
+    if v[0] == "meth" and v[2] == "items" and not v[3] and not v[4]:
+        v = v[1]
+
+    def mapping_of(x, bv):
+        """x is getattr(bv, var_type)[.items()]"""
+        if x[0] == "meth" and x[2] == "items" and not x[3] and not x[4]:
+            x = x[1]
+        return x == ("call", ("global", "getattr"), (bv, VT), ())
+    is_chain = lambda f: f == ("global", "chain") or f == ("attr", ("global", "itertools"), "chain")
+    if v[0] == "call" and (v[1] in (("global", "dict"), ("global", "OrderedDict")) or v[1] == ("attr", ("global", "collections"), "OrderedDict")) \
+            and len(v[2]) == 1 and not v[3]:
+        x = v[2][0]
+        g = None
+        if x[0] == "meth" and is_chain(x[1]) and x[2] == "from_iterable" and len(x[3]) == 1 and not x[4]:
+            g = x[3][0]
+        elif x[0] == "call" and is_chain(x[1]) and len(x[2]) == 1 and x[2][0][0] == "star" and not x[3]:
+            g = x[2][0][1]
+        if g is not None and g[0] == "comp" and g[1] in ("gen", "list") and len(g[3]) == 1:
+            tg, it, ifs = g[3][0]
+            return tg is not None and tg[0] == "bv" and it == COMPS and not ifs and mapping_of(g[2], tg)
+        return False
+    if v[0] == "comp" and v[1] == "dict" and len(v[3]) == 2:
+        (t1, i1, f1), (t2, i2, f2) = v[3]
+        return t1 is not None and t1[0] == "bv" and i1 == COMPS and not f1 and not f2 and i2[0] == "meth" and i2[2] == "items" and mapping_of(i2, t1) \
+            and t2 is not None and t2[0] == "tuple" and len(t2[1]) == 2 and v[2] == ("tuple", tuple(t2[1]))
+    return False
 
 
 # ------------------------------------------------------------------ R6
